@@ -19,7 +19,7 @@ FAB = {"A": (0, 0), "B": (0, 1), "C": (0, 2), "D": (0, 3), "E": (0, 4), "EN": (1
 
 PARAM_GRID_QUICK = [
     dict(n=3.5, p=1.5, lam=5.0, M=125.0, phi=1.0),  # defaults
-    dict(n=2.0, p=2.0, lam=0.0, M=50.0, phi=0.7),  # all-rational point
+    dict(n=2.0, p=2.0, lam=0.0, M=12.5, phi=0.7),  # all-rational point, non-integer mobility
     dict(n=5.0, p=1.0, lam=10.0, M=200.0, phi=0.3),
     dict(n=3.0, p=1.5, lam=5.0, M=0.0, phi=1.0),
 ]
